@@ -22,7 +22,7 @@ func init() {
 		Level:     "exploration",
 		Technique: "bounded exhaustive input/configuration enumeration: one generated item type per subset of the five interfaces, by value and by pointer, every combination of method results, every storing path, mutation before/after Update; oracle = the documented precedence ladder",
 		Rule: "family interfaces: 32 generated types (every subset of String/GoString/Error/Height/TerminalCellWidth) x value|pointer x every assignment of a 4-text (thorough 6-text) pool to the text methods present x 2 values per size method present x 4 storing paths (NewCell, Row.Add, AddRowItems, AddHeaders), " +
-			"pointer items additionally mutated and observed before Update, after Update and after a second Update; family plain: nil, strings, runes (ASCII, 2-byte, 3-byte, NUL, LF, int32), ints, floats, bools, slices, maps, method-less structs, errors, and each of them nested in a Cell (depth 1, 2) and behind *Cell; " +
+			"pointer items additionally mutated and observed before Update (also after rendering the surrounding table with every renderer), after Update and after a second Update; family plain: nil, strings, runes (ASCII, 2-byte, 3-byte, NUL, LF, int32), ints, floats, bools, slices, maps, method-less structs, errors, and each of them nested in a Cell (depth 1, 2) and behind *Cell; " +
 			"non-trivial = item implementing >=1 interface, or a non-string plain item; distinct by (type, values, path)",
 		Assumptions: []string{"typed-nil pointers are outside the alphabet (their methods have no result to give)", "fmt's %v is the reference for 'anything else'"},
 		QuickBudget: 90 * time.Second, ThoroughBudget: 15 * time.Minute,
@@ -47,26 +47,34 @@ var c01Paths = []string{"NewCell", "Row.Add", "AddRowItems", "AddHeaders"}
 
 // c01Store stores item through the given path and returns a pointer to the stored cell.
 func c01Store(path int, item interface{}) *tabular.Cell {
+	c, _ := c01StoreIn(path, item)
+	return c
+}
+
+// c01StoreIn also returns the table the cell lives in (nil for stand-alone cells and detached rows).
+func c01StoreIn(path int, item interface{}) (*tabular.Cell, tabular.Table) {
 	switch path {
 	case 0:
 		c := tabular.NewCell(item)
-		return &c
+		return &c, nil
 	case 1:
 		r := tabular.NewRow()
 		r.Add(tabular.NewCell(item))
-		return &r.Cells()[0]
+		return &r.Cells()[0], nil
 	case 2:
 		t := tabular.New()
+		t.AddHeaders("h")
 		t.AddRowItems(item)
 		c, err := t.CellAt(tabular.CellLocation{Row: 1, Column: 1})
 		if err != nil {
 			panic("harness: CellAt(1,1) after AddRowItems: " + err.Error())
 		}
-		return c
+		return c, t
 	default:
 		t := tabular.New()
 		t.AddHeaders(item)
-		return &t.Headers()[0]
+		t.AddRowItems("x")
+		return &t.Headers()[0], t
 	}
 }
 
@@ -238,7 +246,8 @@ func runC01(x *X) {
 		}
 		want := refText(mask, f, item)
 		var cell *tabular.Cell
-		if p, val, site := Safe(func() { cell = c01Store(path, item) }); p {
+		var table tabular.Table
+		if p, val, site := Safe(func() { cell, table = c01StoreIn(path, item) }); p {
 			x.FailSite("C01.no_panic", append(tags, "panic"), site, "storing the item panicked: %v; item %s", val, desc)
 			return
 		}
@@ -259,6 +268,14 @@ func runC01(x *X) {
 		c.Logf("mutate item to %+v", g)
 		x.Clause("C01.stale_until_update")
 		c01Observe(x, cell, want, item, append(tags, "after_mutation_before_update"), "after mutating the item, before Update", desc)
+		if table != nil {
+			// rendering the table (any renderer) is not a request to update either
+			for _, tg := range baseTargets() {
+				Safe(func() { tg.Render(table) })
+			}
+			c.Logf("render the table with every renderer")
+			c01Observe(x, cell, want, item, append(tags, "after_mutation_before_update", "after_rendering_the_table"), "after mutating the item and rendering its table with every renderer, before Update", desc)
+		}
 		cell.Update()
 		c.Logf("cell.Update()")
 		want2 := refText(mask, g, item)
